@@ -39,6 +39,8 @@ def _mps(rng, qd, qD):
 
 CTORS = {
     'xxz3': lambda: ptn.heisenberg_xxz_mpo(3, 1.0, 0.7, 0.2),
+    # same operator; the state tensors carry entries of size 2^-20 (state norm ~ 2^-60: non-zero, far below any absolute threshold)
+    'xxz3_tiny': lambda: ptn.heisenberg_xxz_mpo(3, 1.0, 0.7, 0.2),
     'ising3': lambda: ptn.ising_mpo(3, 1.0, 0.4, 0.6),
     'fh2': lambda: ptn.fermi_hubbard_mpo(2, 1.0, 2.5, 0.3),
     'bh3': lambda: ptn.bose_hubbard_mpo(3, 3, 0.8, 1.5, 0.2),
@@ -57,7 +59,7 @@ def build_world(desc):
     K = CTORS[name]()
     qd = [int(x) for x in K.qd]
     L = K.nsites
-    if name in ('xxz3', 'xxz2', 'xxz4'):
+    if name in ('xxz3', 'xxz2', 'xxz4', 'xxz3_tiny'):
         tot = 1 if L % 2 else 0
         al = palette.reachable_alphabets(L, qd, 0, tot)
         qa = [[0]] + [list(al[i]) for i in range(1, L)] + [[tot]]
@@ -90,6 +92,9 @@ def build_world(desc):
         raise ValueError(name)
     psi = _mps(rng, qd, qa)
     phi = _mps(rng, qd, qb)
+    if name.endswith('_tiny'):
+        psi.A = [a * 2.0 ** -20 for a in psi.A]
+        phi.A = [a * 2.0 ** -20 for a in phi.A]
     H = CTORS[name]()
     return World(name, psi, phi, H, K, name)
 
@@ -104,6 +109,12 @@ def _is_hermitian_neutral(K):
 
 def _norm(m):
     return float(np.linalg.norm(dense.mps_to_vector(m.A)))
+
+
+def _nonzero(m):
+    """Non-zero state: norm above rounding level relative to the size of its tensors (no absolute threshold)."""
+    tscale = float(np.prod([np.linalg.norm(a) for a in m.A]))
+    return tscale > 0 and _norm(m) > 1e-12 * tscale
 
 
 def _maxbond(m):
@@ -131,7 +142,7 @@ class MPSSystem(System):
 
     def enabled(self, w):
         T = []
-        nz = _norm(w.psi) > 1e-12
+        nz = _nonzero(w.psi)
         small = _maxbond(w.psi) <= MAXBOND
         hermK = w.name not in ('linf3',) and _same_qd(w.K, w.psi)
         L = w.psi.nsites
@@ -198,7 +209,7 @@ class MPSSystem(System):
 
 
 def _keep_boundary(W, ctx, call):
-    nz = _norm(W.psi) > 1e-12
+    nz = _nonzero(W.psi)
     b0 = (list(np.asarray(W.psi.qD[0]).tolist()), list(np.asarray(W.psi.qD[-1]).tolist()))
     call()
     b1 = (list(np.asarray(W.psi.qD[0]).tolist()), list(np.asarray(W.psi.qD[-1]).tolist()))
@@ -255,8 +266,8 @@ def sig(case):
 
 
 def spaces(tier, seed):
-    worlds = ['xxz3', 'ising3', 'fh2', 'bh3', 'xxz1_2', 'linf3', 'xxz2', 'mol4'] if tier == 'quick' else \
-        ['xxz3', 'ising3', 'fh2', 'bh3', 'xxz1_2', 'linf3', 'xxz2', 'xxz4', 'mol4']
+    worlds = ['xxz3', 'xxz3_tiny', 'ising3', 'fh2', 'bh3', 'xxz1_2', 'linf3', 'xxz2', 'mol4'] if tier == 'quick' else \
+        ['xxz3', 'xxz3_tiny', 'ising3', 'fh2', 'bh3', 'xxz1_2', 'linf3', 'xxz2', 'xxz4', 'mol4']
     depth = 3 if tier == 'quick' else 4
     chunks = []
     for wn in worlds:
